@@ -288,8 +288,10 @@ func codecFuncFacts(fx *Facts, fd *ast.FuncDecl, fname string, globals map[strin
 			}
 		}
 	}
-	// guards of the form `if X > buf.Len() { return … }` seen so far, per variable
+	// guards of the form `if X > buf.Len() { return … }` seen so far, per variable; and variables mentioned in ANY earlier
+	// if-condition or if-initialiser (a guard in a shape that is not recognised: "unknown", not "unguarded")
 	guarded := map[string]bool{}
+	mentioned := map[string]bool{}
 	var walk func(stmts []ast.Stmt)
 	inspectExpr := func(n ast.Node) {
 		ast.Inspect(n, func(n ast.Node) bool {
@@ -325,7 +327,7 @@ func codecFuncFacts(fx *Facts, fd *ast.FuncDecl, fname string, globals map[strin
 				if id, ok := fun.(*ast.Ident); ok {
 					switch id.Name {
 					case "make":
-						ff.Makes = append(ff.Makes, classifyMake(x, params, guarded))
+						ff.Makes = append(ff.Makes, classifyMake(x, params, guarded, mentioned))
 					case "T", "K":
 						if len(x.Args) == 1 && strings.HasPrefix(src(x.Args[0]), "len(") {
 							ff.LenConv = append(ff.LenConv, src(x))
@@ -346,6 +348,23 @@ func codecFuncFacts(fx *Facts, fd *ast.FuncDecl, fname string, globals map[strin
 	walk = func(stmts []ast.Stmt) {
 		for _, s := range stmts {
 			// record guards before inspecting later statements
+			if is, ok := s.(*ast.IfStmt); ok {
+				note := func(n ast.Node) {
+					if n == nil {
+						return
+					}
+					ast.Inspect(n, func(n ast.Node) bool {
+						if id, ok := n.(*ast.Ident); ok {
+							mentioned[id.Name] = true
+						}
+						return true
+					})
+				}
+				note(is.Cond)
+				if is.Init != nil {
+					note(is.Init)
+				}
+			}
 			if is, ok := s.(*ast.IfStmt); ok && is.Init == nil {
 				if b, ok := is.Cond.(*ast.BinaryExpr); ok && b.Op == token.GTR && src(b.Y) == "buf.Len()" {
 					if id, ok := b.X.(*ast.Ident); ok && len(is.Body.List) == 1 {
@@ -415,7 +434,7 @@ func codecFuncFacts(fx *Facts, fd *ast.FuncDecl, fname string, globals map[strin
 	}
 }
 
-func classifyMake(c *ast.CallExpr, params map[string]bool, guarded map[string]bool) string {
+func classifyMake(c *ast.CallExpr, params map[string]bool, guarded map[string]bool, mentioned map[string]bool) string {
 	if len(c.Args) < 2 {
 		return "constant"
 	}
@@ -434,6 +453,9 @@ func classifyMake(c *ast.CallExpr, params map[string]bool, guarded map[string]bo
 		}
 		if guarded[x.Name] {
 			return "guarded:if " + x.Name + " > buf.Len()"
+		}
+		if mentioned[x.Name] {
+			return "unknown:" + src(c) + " (the size is tested by an earlier condition of unrecognised shape)"
 		}
 		return "unguarded:" + src(c)
 	case *ast.CallExpr:
